@@ -15,14 +15,14 @@ import (
 // successor) of the edge taken when the fact HOLDS.
 type Guard struct {
 	Name  string
-	Match func(*ssa.If) (succ int, ok bool)
+	Match func(cond ssa.Value) (succ int, ok bool)
 }
 
 // AnyOf is the disjunction of guards: an If matches if any alternative does.
 func AnyOf(name string, gs ...Guard) Guard {
-	return Guard{Name: name, Match: func(i *ssa.If) (int, bool) {
+	return Guard{Name: name, Match: func(cond ssa.Value) (int, bool) {
 		for _, g := range gs {
-			if s, ok := g.Match(i); ok {
+			if s, ok := g.Match(cond); ok {
 				return s, true
 			}
 		}
@@ -52,15 +52,7 @@ func CutReach(p *Prog, fn *ssa.Function, g Guard, sinks ...*ssa.BasicBlock) CutR
 	if fn == nil || len(fn.Blocks) == 0 {
 		return res
 	}
-	cut := map[*ssa.BasicBlock]int{}
-	for _, b := range fn.Blocks {
-		if ifi, ok := lastIf(b); ok {
-			if s, ok := g.Match(ifi); ok {
-				cut[b] = s
-				res.Instances = append(res.Instances, p.Pos(ifi.Cond.Pos())+"/"+condText(ifi))
-			}
-		}
-	}
+	instSeen := map[string]bool{}
 	isSink := map[*ssa.BasicBlock]bool{}
 	for _, s := range sinks {
 		isSink[s] = true
@@ -115,8 +107,13 @@ func CutReach(p *Prog, fn *ssa.Function, g Guard, sinks ...*ssa.BasicBlock) CutR
 					allowed[0] = false
 				}
 			}
-			if s, isCut := cut[b]; isCut {
+			if s, isCut := MatchCond(g, ifi.Cond, n.env); isCut {
 				allowed[s] = false
+				key := blockPos(p, b) + "/" + condText(ifi)
+				if !instSeen[key] {
+					instSeen[key] = true
+					res.Instances = append(res.Instances, key)
+				}
 			}
 		}
 		for i, s := range succs {
@@ -176,6 +173,37 @@ func CutReach(p *Prog, fn *ssa.Function, g Guard, sinks ...*ssa.BasicBlock) CutR
 	return res
 }
 
+// MatchCond applies a guard to a branch condition after resolving phis that
+// the environment fixes (short-circuit && / || lowered to phis in switch
+// cases) and stripping negations.
+func MatchCond(g Guard, cond ssa.Value, env map[*ssa.Phi]ssa.Value) (int, bool) {
+	flip := false
+	for i := 0; i < 6; i++ {
+		switch x := cond.(type) {
+		case *ssa.Phi:
+			if v, ok := env[x]; ok && v != cond {
+				cond = v
+				continue
+			}
+		case *ssa.UnOp:
+			if x.Op == token.NOT {
+				flip = !flip
+				cond = x.X
+				continue
+			}
+		}
+		break
+	}
+	s, ok := g.Match(cond)
+	if !ok {
+		return 0, false
+	}
+	if flip {
+		s = 1 - s
+	}
+	return s, true
+}
+
 func copyEnv(e map[*ssa.Phi]ssa.Value) map[*ssa.Phi]ssa.Value {
 	n := make(map[*ssa.Phi]ssa.Value, len(e)+2)
 	for k, v := range e {
@@ -201,10 +229,7 @@ func envValKey(v ssa.Value) string {
 	if c, ok := v.(*ssa.Const); ok {
 		return "c:" + c.String()
 	}
-	if definitelyNonNil(v) {
-		return "nn"
-	}
-	return "?"
+	return "v:" + v.Name()
 }
 
 func lastIf(b *ssa.BasicBlock) (*ssa.If, bool) {
@@ -225,11 +250,12 @@ func blockPos(p *Prog, b *ssa.BasicBlock) string {
 }
 
 func condText(i *ssa.If) string {
-	switch c := i.Cond.(type) {
+	cond := i.Cond
+	switch c := cond.(type) {
 	case *ssa.BinOp:
 		return shortVal(c.X) + c.Op.String() + shortVal(c.Y)
 	}
-	return shortVal(i.Cond)
+	return shortVal(cond)
 }
 
 func shortVal(v ssa.Value) string {
